@@ -4,6 +4,7 @@ import ast
 from ..core.program import norm, own_nodes, own_statements
 from ..core.world import world
 from ..rules import generic as G
+from ..rules import extra as X
 from ..rules.dispatch import find_chain, lift_chain
 
 EXPLANATION = (
@@ -142,6 +143,7 @@ def run(ctx):
     want = {"match", "deletion", "insertion", "ornament"}
     ctx.check(disp == want and prod == want, "F6-labels", f"exporter {sorted(disp)} / importer {sorted(prod)}", func=exp, construct="alignment-labels",
               msg=f"exporter handles {sorted(disp)}, importer produces {sorted(prod)}; both must be {sorted(want)}")
+    X.rule_signature_dedupe_siblings(ctx)
     # ---- generic
     fs = [exp, prog.func(f"{EM}:save_match"), pp, imp, na, prog.func(f"{IM}:load_match"), prog.func(f"{IM}:load_matchfile")]
     G.rule_F7a(ctx, fs)
